@@ -71,7 +71,7 @@ def make_tagger(two_haps):
 class C09(PipelineProp):
     pid = "C09"
     design_ref = "6/C09"
-    required_theorems = []
+    required_theorems = ['C09_label_tag_spec', 'C09_label_fails_only_unloc_unpainted', 'C09_target_set_by_tag', 'C09_target_monotone_make', 'C09_target_monotone_label', 'C09_routing', 'C09_asm_key_of_tagged', 'C09_asm_key_of_untagged', 'C09_legacy_refuted']
     n_quick = 400
 
     def rule(self):
